@@ -283,3 +283,15 @@ def oracle_range(req, out):
         if not valid(k, iv):
             return "result %s is not a valid %s" % (v, k)
     return None
+
+
+DOCUMENTED_CONSTS = ("ok -719162 2932896 0 86399999999 -62135596800000000 253402300799999999 -2136000000 0 2136000000 "
+                     "-8640000000000000000 0 8640000000000000000 -62135596800000000 253402300799000000")
+
+
+def oracle_consts(req, out):
+    """C02: the public MIN / MAX / ZERO constants are the documented range limits (0001-01-01, 9999-12-31,
+    23:59:59.999999, ±178000000-00, ±100000000 00:00:00, Oracle date to the whole second)."""
+    if req == "K.consts" and out != DOCUMENTED_CONSTS:
+        return "public range constants differ from the documented limits"
+    return None
